@@ -75,7 +75,7 @@ def cvc5_text(text):
     # z3 prints chars as (_ Char N) / (_ char #xNN): rewrite to unit strings where they are arguments of seq.unit
     t = re.sub(r'\(seq\.unit \(_ Char (\d+)\)\)', lambda m: '"\\u{%x}"' % int(m.group(1)), t)
     t = re.sub(r'\(seq\.unit \(_ char #x([0-9a-fA-F]+)\)\)', lambda m: '"\\u{%s}"' % m.group(1), t)
-    t = t.replace('str.from_code', 'str.from_code')
+    t = t.replace('seq.nth_i', 'seq.nth').replace('seq.nth_u', 'seq.nth')
     return t
 
 
@@ -114,27 +114,45 @@ def _verdict_of(out, rc):
     return 'error' if ('error' in out.lower() or rc != 0) else 'unknown'
 
 
+import threading
+_SLOTS = threading.BoundedSemaphore(int(os.environ.get('PYVC_SOLVER_SLOTS', '14')))
+
+
 def race(names, path, timeout, seed, need):
-    """run the solvers concurrently; stop at the first `sat` or once `need` solvers said `unsat`"""
-    procs = {}
-    t0 = time.time()
-    for n in names:
-        procs[n] = subprocess.Popen(solver_cmd(n, path, timeout, seed), stdout=subprocess.PIPE, stderr=subprocess.STDOUT, text=True)
+    """run the solvers concurrently (never more than _SLOTS solver processes machine-wide per check); stop at the
+    first validated `sat` or once `need` solvers said `unsat`"""
     attempts = []
     verdict, agree = 'unknown', 0
-    pending = dict(procs)
-    while pending:
-        done = [n for n, p in pending.items() if p.poll() is not None]
+    todo = list(names)
+    running = {}       # name -> (proc, t_start)
+    while todo or running:
+        # start what we can
+        while todo and _SLOTS.acquire(blocking=not running):
+            n = todo.pop(0)
+            p = subprocess.Popen(solver_cmd(n, path, timeout, seed), stdout=subprocess.PIPE, stderr=subprocess.STDOUT, text=True)
+            running[n] = (p, time.time())
+        done = [n for n, (p, ts) in running.items() if p.poll() is not None]
+        now = time.time()
+        for n, (p, ts) in list(running.items()):
+            if n not in done and now - ts > timeout + 3:
+                try:
+                    p.kill()
+                    p.wait(timeout=2)
+                except Exception:
+                    pass
+                done.append(n)
         if not done:
-            if time.time() - t0 > timeout + 3:
-                break
             time.sleep(0.01)
             continue
         for n in done:
-            p = pending.pop(n)
-            out = p.stdout.read()
-            res = _verdict_of(out, p.returncode)
-            attempts.append({'solver': n, 'result': res, 'time_s': round(time.time() - t0, 3)})
+            p, ts = running.pop(n)
+            _SLOTS.release()
+            try:
+                out = p.stdout.read()
+            except Exception:
+                out = ''
+            res = _verdict_of(out, p.returncode) if p.returncode is not None and p.returncode >= 0 else 'timeout'
+            attempts.append({'solver': n, 'result': res, 'time_s': round(time.time() - ts, 3)})
             if res == 'unsat':
                 agree += 1
                 verdict = 'unsat'
@@ -142,13 +160,16 @@ def race(names, path, timeout, seed, need):
                 verdict = 'sat'
         if verdict == 'sat' or agree >= need:
             break
-    for n, p in pending.items():
+    for n, (p, ts) in running.items():
         try:
             p.kill()
             p.wait(timeout=2)
         except Exception:
             pass
-        attempts.append({'solver': n, 'result': 'cancelled' if verdict != 'unknown' else 'timeout', 'time_s': round(time.time() - t0, 3)})
+        _SLOTS.release()
+        attempts.append({'solver': n, 'result': 'cancelled', 'time_s': round(time.time() - ts, 3)})
+    for n in todo:
+        attempts.append({'solver': n, 'result': 'not-run', 'time_s': 0.0})
     return verdict, attempts, agree
 
 
@@ -205,7 +226,7 @@ def discharge(obls, specs=None, ip=None, tier='quick', seed=0, timeout=None, job
             continue
         extra = []
         if specs is not None and ip is not None:
-            extra = specs.unfold(ip, list(o.hyps) + [goal], extra_fuel=o.extra.get('fuel', 0))
+            extra = specs.unfold(ip, list(o.hyps) + [goal], extra_fuel=o.extra.get('fuel', 0), opaque=o.extra.get('opaque', ()))
         hints = o.extra.get('hints', [])
         text = smt2_of(o.hyps, goal, list(extra) + list(hints))
         o.smt2 = text
